@@ -192,3 +192,27 @@ Qed.
 Lemma ltb_leb_succ v : (1 <? v) = (2 <=? v).
 Proof. destruct (Z.ltb_spec 1 v), (Z.leb_spec 2 v); auto; exfalso; apply (Z.lt_irrefl v); 
   [apply Z.lt_le_trans with 2; [assumption|]|]; auto with zarith. Qed.
+
+(* destruct the next primitive parse both sides are waiting for *)
+Ltac dparse :=
+  match goal with
+  | |- context [match ?X with Ok _ => _ | Err _ => _ end] =>
+      match X with
+      | Dwarf_initial_length _ _ => idtac | Dwarf_offset _ _ => idtac | Dwarf_target_addr _ _ => idtac
+      | of_dec _ _ => idtac | CString _ => idtac | Dwarf_uleb128 _ => idtac | Dwarf_sleb128 _ => idtac
+      end;
+      destruct X as [[? ?]|?]; cbv beta iota; try reflexivity
+  end.
+
+Theorem model_CIE_header_is_gen : forall St bs,
+  Dwarf_CIE_header St bs = pmap cie_header_of (parse_layout St [] gen_Dwarf_CIE_header) bs.
+Proof.
+  intros St bs. unfold Dwarf_CIE_header, pmap, gen_Dwarf_CIE_header.
+  cbn [parse_layout parse_hkind]. unfold Dwarf_uint8.
+  change (Z.to_nat 1) with 1%nat.
+  unfold pbind, pret.
+  do 4 dparse.
+  cbn [ctx_int ctx_get String.eqb Ascii.eqb Bool.eqb]. rewrite ltb_leb_succ.
+  match goal with |- context [4 <=? ?ver] => destruct (4 <=? ver); destruct (2 <=? ver) end;
+    repeat dparse; reflexivity.
+Qed.
